@@ -39,6 +39,18 @@ SHORT = {
  'C14b': '`convert_row`: a space in `letters` no longer counts towards the row length check (a padded over-long row indexes past the row)',
  'C19b': '`release_action_mappings`: the "is it held at all" test dropped when collecting modifiers to lift (Released for a key that is not down)',
  'C20b': 'per-device loop: a failed write of a repeat tick is logged and dropped instead of ending the loop',
+ 'C02c': '`release_absorbed_keys`: only the mappings that themselves absorb the dropped key are torn down (a non-absorbing mapping sharing the modifier stays, with its output held)',
+ 'C03c': '`newly_press`: a "from rest" fast path skips every multi-key trigger when nothing is passed through / in effect / absorbed (a key can still be physically held)',
+ 'C04c': '`release_action_mappings`: early return when no non-modifier key is among the mapped outputs (a stale modifier of an earlier chord stays down)',
+ 'C05d': '`release_all_action_keys`: the whole list of mapped outputs is drained, not only its non-modifier keys (modifier of a modifier-remapping lifted)',
+ 'C08c': '`newly_press`: the pressed key leaves the absorbed list only if it is one of the eight modifiers (an absorbed CapsLock stays absorbed after release + press)',
+ 'C09c': '`add_new_mapping`: modifiers that are physically held are filtered out of the repeat keys of the Repeating request',
+ 'C11c': '`newly_release` (mapper): releasing a modifier that is not the repeating trigger answers NoChange, so the loop keeps the timer running after a key change',
+ 'C13e': '`convert`: `adjust_repeats` moved into the first pass (a repeat-only entry listed before its target no longer reaches it and adds an identity mapping)',
+ 'C14c': '`has_duplicate_key`: sorts via `FromSet::new` and compares neighbours only (the last key is not sorted in; its duplicate is missed and the mapper panics)',
+ 'C17b': '`build_exclude_text`: patterns that are blank after `trim()` are skipped (a whitespace-only pattern is dropped from the command line)',
+ 'C18b': '`DevInputWriter::send`: an empty batch returns early without writing the SYN_REPORT',
+ 'C19c': '`newly_press`: a physically pressed modifier that a mapping in effect already outputs is passed through as well (second `Pressed` for a key that is down)',
 }
 rows = []
 for s in sorted(os.listdir('/verif/seeded')):
